@@ -20,7 +20,7 @@ RULE = ("well-formed server streams of 5..80 def*/set*/delProperty/message/ping/
         "every Buffer.process call runs under a step budget. non-trivial = a stream in which at least 3 messages changed the mirror; "
         "distinct = hash(stream, spelling seed, fragmentation, mode)")
 ASSUMPTIONS = ["messages on a control-mode connection stay below its 2048-character threshold (BLOB-mode connections get payloads up to 6000 bytes)", "BLOB sizes in the stream are consistent with their payloads"]
-REQUIRED_EVENTS = ["streams", "messages_applied", "views_compared", "wire_mode_streams", "direct_mode_streams", "snoop_mode_streams", "client_mode_streams",
+REQUIRED_EVENTS = ["updates_without_a_state_ahead_of_a_message", "streams", "messages_applied", "views_compared", "wire_mode_streams", "direct_mode_streams", "snoop_mode_streams", "client_mode_streams",
                    "whole_device_deletions", "redefinitions", "empty_blob_payloads"]
 QUICK_SHARDS = 4
 FRAGS = ["whole", "1", "random", "small", 1024]
@@ -96,6 +96,15 @@ async def run_stream(ctx, case):
                 ctx.count("redefinitions")
             if am["tag"] == "setBLOBVector" and any(c["attrs"].get("size") == "0" for c in am["children"]):
                 ctx.count("empty_blob_payloads")
+            known = [(d, p_, x["kind"]) for d, props in sorted(before.items()) for p_, x in sorted(props.items())]
+            if mode in ("wire", "wire-blobs", "client-start") and known and frng.random() < 0.12:
+                # Ahead of this message the server sends an update of a known property that carries NO state and lists no element
+                # (the state attribute is optional in the INDI DTD).  Whether the client reads it as "nothing changes" or does not
+                # accept it at all, the mirror stays as it is - in particular the property's state.
+                d_, p_, kind_ = frng.choice(known)
+                extra_ = frng.choice(["", ' timeout="5"', ' message="still here"', ' timestamp="2024-01-02T03:04:05"'])
+                text = f'<set{kind_}Vector device="{G._esc_attr(d_, '"', 2)}" name="{G._esc_attr(p_, '"', 2)}"{extra_}/>\n' + text
+                ctx.count("updates_without_a_state_ahead_of_a_message")
             mcase = dict(case, message_index=k)
             detail = {"message": text, "previous_messages": len(msgs[:k])}
             if mode == "client-start":
